@@ -6,6 +6,8 @@ import exectrace
 
 
 def nontrivial(v):
+    if "tpls" not in v:
+        return v["x"].get("n", 0) >= 3          # byte-level family: three or more fragments
     s = json.dumps(v["tpls"])
     return s.count('"k": "for"') + s.count('"k":"for"') >= 1 and (v["x"].get("n", 0) >= 2) or s.count("branches") >= 1 and s.count('"c"') >= 2
 
@@ -22,6 +24,9 @@ def check(run, only=None):
     else:
         r = common.run_tlc("C06", "C06_thorough" if thorough else "C06", env={"VERIF_SEED": run.seed}, timeout=3000, heap="8g")
         vecs = r["lines"]
+        # the same property decided from BYTES by the whole specification pipeline (Lexer -> Parser -> Exec): fragment sequences
+        r2 = common.run_tlc("C06_Src", "C06_Src_thorough" if thorough else "C06_Src", env={"VERIF_SEED": run.seed}, timeout=3000, heap="8g")
+        vecs = vecs + r2["lines"]
     common.replay_vectors(run, vecs, nontrivial=nontrivial)
     run.traces += len(vecs) - run.oom
 
